@@ -97,7 +97,7 @@ func runC07(c *core.Ctx) error {
 					}
 					if d.Call.StaticCallee() == del {
 						// defer ctx.Delete(key) — argument evaluated at defer time
-						if core.SameValue(d.Call.Args[1], keyArg) || d.Call.Args[1] == keyArg {
+						if core.SameValue(d.Call.Args[1], keyArg) || d.Call.Args[1] == keyArg || sameCellUnchanged(keyArg, d.Call.Args[1], cl, d) {
 							deferIn = d
 							deleteSitesOK[d] = true
 						}
@@ -179,6 +179,25 @@ func runC07(c *core.Ctx) error {
 			}
 			if cc.StaticCallee() == addKey {
 				addCalls = append(addCalls, cl)
+			}
+		}
+		if len(deref) == 0 && fn.Name() != "resolvePointer" {
+			// the dereference may sit in a helper of the same package that hands the raw target back
+			// (lookupComponent, rawComponent): one level of non-parse static callees
+			for _, call := range core.Calls(fn) {
+				cl, ok := call.(*ssa.Call)
+				cal := call.Common().StaticCallee()
+				if !ok || cal == nil || cal == fn || !core.InModule(cal) || core.FuncPkgPath(cal) != core.FuncPkgPath(fn) ||
+					strings.HasPrefix(cal.Name(), "parse") || cal.Name() == "resolvePointer" || strings.HasPrefix(cal.Name(), "resolve") {
+					continue
+				}
+				for _, c2 := range core.Calls(cal) {
+					n2 := core.CalleeName(c2.Common())
+					if derefNames[n2] || strings.HasSuffix(n2, ".resolvePointer") || (c2.Common().IsInvoke() && c2.Common().Method.Name() == "ResolveReference") {
+						deref = append(deref, cl)
+						break
+					}
+				}
 			}
 		}
 		if len(deref) == 0 || fn.Name() == "resolvePointer" {
@@ -843,4 +862,52 @@ func checkIROrder(c *core.Ctx, r *core.Rule, prog *core.Prog) {
 	if !bad {
 		r.Pass(fmt.Sprintf("makeIR: no operation generation (%d sites) runs after the recursion check", len(genCalls)))
 	}
+}
+
+// sameCellUnchanged: a and b are loads of the same local cell and no store to that cell lies on a path from instruction
+// ia (where a is used) to instruction ib (where b is used) — `key` held in a cell because it is a named result.
+func sameCellUnchanged(a, b ssa.Value, ia, ib ssa.Instruction) bool {
+	la, ok1 := a.(*ssa.UnOp)
+	lb, ok2 := b.(*ssa.UnOp)
+	if !ok1 || !ok2 || la.Op != token.MUL || lb.Op != token.MUL || la.X != lb.X {
+		return false
+	}
+	al, ok := la.X.(*ssa.Alloc)
+	if !ok {
+		return false
+	}
+	idx := func(in ssa.Instruction) int {
+		for i, x := range in.Block().Instrs {
+			if x == in {
+				return i
+			}
+		}
+		return -1
+	}
+	for _, ref := range *al.Referrers() {
+		st, ok := ref.(*ssa.Store)
+		if !ok || st.Addr != ssa.Value(al) {
+			continue
+		}
+		sb := st.Block()
+		switch {
+		case sb == ia.Block() && sb == ib.Block():
+			if idx(st) > idx(ia) && idx(st) < idx(ib) {
+				return false
+			}
+		case sb == ia.Block():
+			if idx(st) > idx(ia) {
+				return false
+			}
+		case sb == ib.Block():
+			if idx(st) < idx(ib) {
+				return false
+			}
+		default:
+			if blockReaches(ia.Block(), sb) && blockReaches(sb, ib.Block()) {
+				return false
+			}
+		}
+	}
+	return true
 }
